@@ -57,9 +57,9 @@ func (s *seeker) Seek(off int64, whence int) (int64, error) {
 var _ io.ReadSeeker = (*seeker)(nil)
 
 type declaration struct {
-	isObject                          bool
-	bomFormat, specVersion, spdxVer   string
-	hasBom, hasSpec, hasSpdx          bool
+	isObject                        bool
+	bomFormat, specVersion, spdxVer string
+	hasBom, hasSpec, hasSpdx        bool
 }
 
 // declOf reads the top-level declaration of a JSON input independently (encoding/json into a map).
@@ -87,7 +87,6 @@ func declOf(in []byte) declaration {
 	d.spdxVer, d.hasSpdx = get("spdxVersion")
 	return d
 }
-
 
 // agrees: the reported format is backed by the declaration present in the input.
 func agrees(f formats.Format, in []byte) string {
@@ -204,7 +203,9 @@ func positive(c *engine.Ctx) {
 								continue // the CycloneDX serializer needs one root and ignores the indent
 							}
 							rich, f, indent := rich, f, indent
-							c.Case(func() any { return map[string]any{"list": spec, "rich": rich == 1, "format": string(f), "indent": indent} }, func(t *engine.T) *engine.Violation {
+							c.Case(func() any {
+								return map[string]any{"list": spec, "rich": rich == 1, "format": string(f), "indent": indent}
+							}, func(t *engine.T) *engine.Violation {
 								nl := spec.Build()
 								if rich == 1 {
 									for _, n := range nl.Nodes {
